@@ -19,12 +19,15 @@ BUILD = os.path.join(VERIF, "build")
 CXX = os.environ.get("VERIF_CXX", "g++")
 GUARD = "TULZ_VERIF"
 
-COMMON = ["-std=c++20", "-g", "-fno-omit-frame-pointer", "-UNDEBUG", "-D" + GUARD, "-Wno-deprecated-declarations", "-w"]
+COMMON = ["-std=c++20", "-g", "-fno-omit-frame-pointer", "-D" + GUARD, "-Wno-deprecated-declarations", "-w"]
 FLAVOURS = {
+    # R = "as released": the library's own RelWithDebInfo semantics (-O2 -DNDEBUG: tulz asserts compiled out) + ASan, so that
+    # the harness oracles — not tulz' internal assertions — have to notice a violation
     # name: (flags for tulz + harness, flags for the simulator TU, link flags)
-    "A": (["-O1", "-fsanitize=address"], ["-O1", "-fsanitize=address"], ["-fsanitize=address"]),
-    "T": (["-O1", "-fsanitize=thread"], ["-O1"], ["-fsanitize=thread"]),
-    "N": (["-O1"], ["-O1"], []),
+    "A": (["-O1", "-UNDEBUG", "-fsanitize=address"], ["-O1", "-fsanitize=address"], ["-fsanitize=address"]),
+    "T": (["-O1", "-UNDEBUG", "-fsanitize=thread"], ["-O1"], ["-fsanitize=thread"]),
+    "R": (["-O2", "-DNDEBUG", "-fsanitize=address"], ["-O1", "-fsanitize=address"], ["-fsanitize=address"]),
+    "N": (["-O1", "-UNDEBUG"], ["-O1"], []),
 }
 
 
